@@ -657,6 +657,17 @@ class EffectDomain(DefaultDomain):
         if key in self.track_stores:
             log = st.get("ev.calls", ())
             return st.set(key, value).set("ev.calls", log + (("store:" + key, (value,), (), "ok"),))
+        parts = key.split(".")
+        if len(parts) >= 3 and getattr(self, "wobj_state", False):
+            # self.a.b = v where self.a is a wrapped object: the attribute belongs to that object (whatever alias reads it later)
+            w = self._wobj_of(["self"] + parts[1:-1] if parts[0] == "self" else parts[:-1], st, fr)
+            if w is not None:
+                return st.set(f"obj.{w[1]}.{parts[-1]}", value)
+        return None
+
+    def store_attr_on(self, base, attr, value, st, fr):
+        if getattr(self, "wobj_state", False) and isinstance(base, tuple) and base[:1] == ("wobj",):
+            return st.set(f"obj.{base[1]}.{attr}", value)
         return None
 
     # -- symbolic wrapped objects -----------------------------------------------------------
